@@ -67,7 +67,9 @@ def r1_helpers(program, rep):
         # half-open [a0,a1) and [b0,b1) share a point
         return (r["a0"] < r["a1"] and r["b0"] < r["b1"] and
                 r["a0"] < r["b1"] and r["b0"] < r["a1"])
-    n, bad = evaluate_all(fn, terms, bindings, spec)
+    n, bad = evaluate_all(fn, terms, bindings, spec, integer=True)
+    rep.assume("the endpoints of resource ranges are integers (x < y is "
+               "x <= y - 1)")
     rep.check(not bad, "C05-R1", inst,
               "slices_overlap(a, b) == ([a.start,a.stop) and [b.start,b.stop) "
               "share a point) on all %d weak orderings of the four endpoints "
@@ -954,9 +956,99 @@ def r4_machine_capacity(program, rep):
                    "capacity the chip does not have")
 
 
+
+def r2_reservations_read_only(program, rep):
+    """The tables of reserved ranges are filled while the constraints are
+    read and are only *read* while ranges are handed out: a list fetched
+    from them and extended in place (``r = globally_reserved[res]; r +=
+    local``) leaves the reservations of one chip in the table every later
+    chip is checked against - feasible placements are then refused, or
+    ranges of another chip's reservation are skipped."""
+    fn = program.get(AL + ".greedy:allocate")
+    inst = qual(fn)
+    ps = formals(fn)
+    loops = [n for n in ast.walk(fn) if isinstance(n, ast.For)]
+
+    def mentions(e, names):
+        return any(isinstance(x, ast.Name) and x.id in names
+                   for x in ast.walk(e))
+    cons = [lp for lp in loops if mentions(lp.iter, {"constraints"})]
+    if not cons or "constraints" not in ps:
+        raise AnalysisError("allocate: the loop over the constraints was "
+                            "not found")
+    MUT = {"append", "extend", "insert", "add", "update", "remove", "pop",
+           "clear", "sort", "setdefault"}
+
+    def root(e):
+        while isinstance(e, (ast.Subscript, ast.Attribute, ast.Call)):
+            if isinstance(e, ast.Call):
+                e = e.func
+            else:
+                e = e.value
+        return e.id if isinstance(e, ast.Name) else None
+    tables = set()
+    for lp in cons:
+        for n in ast.walk(lp):
+            if isinstance(n, ast.Call) and isinstance(
+                    n.func, ast.Attribute) and n.func.attr in MUT:
+                r = root(n.func.value)
+                if r is not None and r not in ps:
+                    tables.add(r)
+    if not tables:
+        raise AnalysisError("allocate: no table filled from the "
+                            "constraints found")
+    hits = []
+    for lp in loops:
+        if any(lp is c or _inside(lp, c) for c in cons):
+            continue
+        if any(_inside(lp, o) for o in loops if o is not lp and
+               not any(o is c for c in cons)):
+            continue        # judged with its outermost loop
+        aliases = {}
+        for n in ast.walk(lp):
+            if isinstance(n, ast.Assign) and len(n.targets) == 1 and \
+                    isinstance(n.targets[0], ast.Name) and \
+                    isinstance(n.value, (ast.Subscript, ast.Call)) and \
+                    root(n.value) in tables:
+                aliases[n.targets[0].id] = root(n.value)
+        for n in ast.walk(lp):
+            who = None
+            if isinstance(n, ast.AugAssign):
+                t = n.target
+                if isinstance(t, ast.Name) and t.id in aliases and \
+                        isinstance(n.op, (ast.Add, ast.BitOr)):
+                    who = (t.id, aliases[t.id])
+                elif isinstance(t, ast.Subscript) and root(t) in tables:
+                    who = (ast.unparse(t), root(t))
+            elif isinstance(n, ast.Call) and isinstance(
+                    n.func, ast.Attribute) and n.func.attr in MUT - {
+                        "setdefault", "pop"}:
+                r = root(n.func.value)
+                if r in tables:
+                    who = (ast.unparse(n.func.value), r)
+                elif r in aliases:
+                    who = (r, aliases[r])
+            elif isinstance(n, ast.Assign):
+                for t in n.targets:
+                    if isinstance(t, ast.Subscript) and root(t) in tables:
+                        who = (ast.unparse(t), root(t))
+            if who is not None:
+                hits.append((n, who))
+    rep.check(not hits, "C05-R2", inst, "the reservation tables (%s) are "
+              "only read while ranges are handed out" % ", ".join(
+                  sorted(tables)), construct="reservation table changed",
+              node=hits[0][0] if hits else fn,
+              fail="line %d changes %s, which belongs to the reservation "
+                   "table %s, while ranges are being handed out: what one "
+                   "vertex / chip adds is there for every later one" % (
+                       hits[0][0].lineno if hits else 0,
+                       hits[0][1][0] if hits else "",
+                       hits[0][1][1] if hits else ""), positive=True)
+
 def check(program, rep):
     rep.guard("C05-R1", r1_helpers, program, rep)
     rep.guard("C05-R2", r2_r3, program, rep)
+    rep.guard("C05-R2", r2_reservations_read_only, program, rep)
     rep.guard("C05-R4", r4_raises, program, rep)
     rep.guard("C05-R4", r4_machine_capacity, program, rep)
     # 'unreserved' is only as good as the reservations: the ones made for
